@@ -372,23 +372,36 @@ type pathChange struct {
 // set of paths is reported as fields "path_set".
 func changedPaths(b, a []rig.Attr, h hist) []pathChange {
 	var out []pathChange
-	am := map[uint32]rig.Attr{}
-	for _, x := range a {
-		am[x.ID] = x
-	}
-	matched := 0
-	for _, x := range b {
-		y, ok := am[x.ID]
-		if !ok {
-			continue
-		}
-		matched++
+	diff := func(x, y rig.Attr) {
 		fs := x.DiffFields(y, rig.AllFields)
 		if x.PathID != y.PathID {
 			fs = append(fs, "path_id")
 		}
 		if len(fs) > 0 {
 			out = append(out, pathChange{fields: strings.Join(fs, "+"), what: fmt.Sprintf("path %d: %s", x.ID, strings.Join(fs, ", ")), shared: h.Paths[x.ID].Dedup, static: h.Paths[x.ID].Static})
+		}
+	}
+	matched := 0
+	sameIDs := len(a) == len(b)
+	for i := 0; sameIDs && i < len(a); i++ {
+		sameIDs = a[i].ID == b[i].ID
+	}
+	if sameIDs {
+		// same paths in the same stored order (a table may hold a path id twice): compare position by position
+		for i := range b {
+			diff(b[i], a[i])
+		}
+		matched = len(b)
+	} else {
+		am := map[uint32]rig.Attr{}
+		for _, x := range a {
+			am[x.ID] = x
+		}
+		for _, x := range b {
+			if y, ok := am[x.ID]; ok {
+				matched++
+				diff(x, y)
+			}
 		}
 	}
 	if len(b) != len(a) || matched != len(b) {
